@@ -33,15 +33,17 @@ import types
 import gin
 from gin import config as gc
 
-BOUNDS = ('configurations of <= 5 bindings (<= 6 in fixed corner cases) over 8 configurables '
-          '(2 same-named in different modules, 2 differing only in case, a class, a method, '
-          'gin.singleton) x 6 scopes x 4 macro names x 2 constants; values of nesting depth '
-          '<= 3 over a fixed pool of literals, references, macros and 14 kinds of non-literal '
-          'object; static registration (bind_parameter or parsed text) or dynamic '
-          'registration (5 import forms); all orders of <= 4 bindings, 12 sampled (quick) / '
-          'all 120 (thorough) orders of 5; per case 3 (quick) / 8 (thorough) pairs '
-          '(max_line_length, continuation_indent) with indent in {0,1,2,4,8} and '
-          'indent < length <= 120, always including length = indent + 1')
+BOUNDS = ('configurations of <= 5 bindings with distinct keys over 8 configurables (2 same-named in '
+          'different modules, 2 differing only in case, a class, its method, gin.singleton) x 6 '
+          'scopes x 4 macro names x 2 constants; values of nesting depth <= 3 over a fixed pool of '
+          'literals, references, macros and 16 kinds of non-literal object; static registration '
+          '(bind_parameter and/or parsed text) or dynamic registration (5 import forms per module, '
+          'bindings in the text and/or programmatic on pre-registered configurables); all orders '
+          'of <= 4 bindings, 12 sampled (quick) / all 120 (thorough) orders of 5; per case 3 '
+          '(quick) / 8 (thorough) pairs (max_line_length, continuation_indent) with indent in '
+          '{0,1,2,4,8} and indent < length <= 120, always (80, 4) and one length = indent + 1. '
+          'Six input shapes on which /repo is known to fail (see _features and the end of '
+          '_corner_cases) occur only as fixed corner cases, not in the sampled part.')
 EXHAUSTIVE = {'quick': False, 'thorough': False}
 
 # ---------------------------------------------------------------- the universe
@@ -92,6 +94,8 @@ IMPORT_FORMS = {  # form -> (statement, prefix under which the module's names ar
     'from_as': lambda m: ('from %s import %s as %s_fr' % (tuple(m.rsplit('.', 1)) + (_last(m),)),
                           _last(m) + '_fr'),
     'parent': lambda m: ('import %s' % m.split('.')[0], m),
+    # corner cases only: the alias is the name of another module that config_str() must import
+    'clash': lambda m: ('from %s import %s as vq_top' % tuple(m.rsplit('.', 1)), 'vq_top'),
 }
 _ALL_SELECTORS = ['%s.%s' % v[:2] for v in TARGETS.values()] + ['gin.macro', 'gin.constant']
 
@@ -111,11 +115,12 @@ _OBJECTS = {
     'neginf': lambda: float('-inf'), 'nan': lambda: float('nan'), 'type': lambda: int,
     'range': lambda: range(3), 'ellipsis': lambda: Ellipsis,
     'repr_multiline': lambda: _Repr('Foo(\n  1)'), 'repr_words': lambda: _Repr('some thing'),
+    'repr_int': lambda: _Repr('42'), 'repr_list': lambda: _Repr("[1, 'a']"),
     'unknown_ref': lambda: gc._UnknownConfigurableReference('nope', True),
     # adversarial reprs, used by fixed corner cases only
     'repr_unterminated': lambda: _Repr("'abc"), 'repr_atref': lambda: _Repr('@nope'),
 }
-_OBJ_KINDS = list(_OBJECTS)[:14]
+_OBJ_KINDS = list(_OBJECTS)[:16]
 
 _WORDS = 'lorem ipsum dolor sit amet consectetur adipiscing elit sed do eiusmod tempor'
 STRINGS = ['', 'abc', "it's", 'say "hi"', 'both \' and "', 'back\\slash', 'c:\\', 'nl\ntab\t',
@@ -259,7 +264,7 @@ def _features(case):
   f += ['late_registration'] * bool(case.get('late'))
   f += ['dotted_macro'] * any(b['target'] == '%' and '.' in b['param'] for b in case['bindings'])
   return f + sorted({'obj=' + d[1] for b in case['bindings'] for d in _walk(b['value'])
-                     if d[0] == 'o' and d[1].startswith('repr_')})
+                     if d[0] == 'o' and d[1] not in _OBJ_KINDS})
 
 
 def _gen_value(rng, depth, targets):
@@ -310,7 +315,7 @@ def _gen_case(rng, tier, n=None):
     case = _finish({'mode': mode, 'bindings': bindings, 'prereg': rng.sample(targets, rng.randint(0, 1))})
     if len(_features(case)) == 1:   # the known-defect shapes are confined to the corner cases
       break
-  forms = list(IMPORT_FORMS) if mode == 'dynamic' else ['plain', 'from']
+  forms = list(IMPORT_FORMS)[:5] if mode == 'dynamic' else ['plain', 'from']
   mods = case.pop('modules') if mode == 'dynamic' else rng.sample(['vq_pkg.alpha', 'vq_top'],
                                                                   rng.choice([0, 0, 1, 2]))
   case['imports'] = [[m, rng.choice(forms if '.' in m else ['plain', 'plain_as'][:len(forms) - 1])]
@@ -334,7 +339,7 @@ def _corner_cases():
   widths = [[80, 4], [5, 4], [1, 0]]
 
   def make(mode, bindings, orders=None, prog=False, imports=None, **kw):
-    bindings = [_b(*b[:4], prog=prog) for b in bindings]
+    bindings = [_b(*b[:4], prog=b[1] == 't_gg' if prog is None else prog) for b in bindings]
     case = _finish(dict(kw, mode=mode, bindings=bindings, widths=widths, orders=orders or [
         list(p) for p in itertools.permutations(range(len(bindings)))]))
     mods = case.pop('modules')
@@ -366,11 +371,13 @@ def _corner_cases():
     yield make('dynamic', g, prereg=['a_meth'])
     yield make('dynamic', g, prog=True)   # everything pre-registered, nothing imported by the text
   # dynamic registration: every import form, two imports binding the same name
-  for form in IMPORT_FORMS:
+  for form in list(IMPORT_FORMS)[:5]:
     yield make('dynamic', [('a', 'a_fa', 'x', ref('b_fa', 'a', True)), ('', 'b_fa', 'y', ['m', 'mm']),
                            ('', 't_gg', 'x', obj('object')), ('', 't_gg', 'y', one)],
                imports=[['vq_pkg.alpha', form], ['vq_pkg.beta', 'from_as'], ['vq_top', 'plain']],
                orders=[[0, 1, 2, 3], [3, 1, 2, 0]])
+  yield make('dynamic', [('', 'a_fa', 'x', one), ('', 't_gg', 'x', ['i', 2])], imports=[['vq_pkg.alpha', 'clash']],
+             prog=None)
   for forms in (('plain', 'plain'), ('plain_as', 'parent'), ('parent', 'plain')):
     yield make('dynamic', [('', 'a_fa', 'x', one), ('', 'b_fa', 'x', ref('a_Foo')), ('', '%', 'mm', one)],
                imports=[['vq_pkg.alpha', forms[0]], ['vq_pkg.beta', forms[1]]])
@@ -405,7 +412,7 @@ def nontrivial(case):
 def _register(names):
   if 'a_meth' in names:
     gin.register(_ALPHA.Cls.meth)
-  for name in set(names) - {'a_meth', 'singleton'} | ({'a_Cls'} if 'a_meth' in names else set()):
+  for name in sorted(set(names) - {'a_meth', 'singleton'} | ({'a_Cls'} if 'a_meth' in names else set())):
     gin.external_configurable(TARGETS[name][2], module=TARGETS[name][0])
 
 
@@ -471,13 +478,13 @@ _STMT = re.compile(r'^([A-Za-z_][\w./]*) = ')
 
 def _structure(text):
   """Problems with 'groups configurables alphabetically with parameters sorted'."""
-  problems, headers, names, section, params = [], [], [], None, []
+  problems, headers, exact, section, params = [], [], [], None, []
   for line in text.split('\n'):
     if line.startswith('# Parameters for ') and line.endswith(':'):
       section = line[len('# Parameters for '):-1]
       headers.append(section)
-      sel = section.rsplit('/', 1)[-1].lower().split('.')
-      names.append('.'.join(sel[-2:]) if sel[-2:] == ['cls', 'meth'] else sel[-1])
+      sel = section.rsplit('/', 1)[-1].split('.')   # the method is named `Cls.meth`
+      exact.append('.'.join(sel[-2:]) if sel[-2:] == ['Cls', 'meth'] else sel[-1])
       params = []
     elif line.startswith('# Macros:'):
       section = None
@@ -491,7 +498,8 @@ def _structure(text):
         problems.append('parameters of %s not sorted: %s' % (section, params))
   if len(set(headers)) != len(headers):
     problems.append('repeated section: %s' % headers)
-  if names != sorted(names):
+  names = [n.lower() for n in exact]   # alphabetical: ignoring case or not, both are accepted
+  if names != sorted(names) and exact != sorted(exact):
     problems.append('sections not in alphabetical order of configurable name: %s' % headers)
   return problems
 
